@@ -373,6 +373,51 @@ func Scopes(quick bool) []Scope {
 		return w
 	})
 
+	ipmPorts := [][]wm.NPPort{nil, {{HasPort: true, Num: 80}}, {{Proto: "UDP"}}}
+	// S-ipmany: many ipBlocks (3..12) in one policy, spread over rules, in both halves of the space
+	add("S-ipmany", fw.Full, func(c *fw.Ctx) *wm.World {
+		n := fw.Pick(c, []int{3, 7, 12}, "number of ipBlocks")
+		pat := c.Choose(4, "layout: spaced /16s | adjacent /24s | both halves | nested")
+		perRule := fw.Pick(c, []int{1, 3, 12}, "ipBlocks per rule")
+		pt := fw.Pick(c, ipmPorts, "ports")
+		dir := c.Choose(3, "ingress | egress | both")
+		var blocks []wm.NPPeer
+		for i := 0; i < n; i++ {
+			switch pat {
+			case 0:
+				blocks = append(blocks, wm.NPPeer{CIDR: fmt.Sprintf("10.%d.0.0/16", 3*i+1)})
+			case 1:
+				blocks = append(blocks, wm.NPPeer{CIDR: fmt.Sprintf("10.1.%d.0/24", i)})
+			case 2:
+				blocks = append(blocks, wm.NPPeer{CIDR: fmt.Sprintf("%d.0.0.0/8", 20*i+5)})
+			default:
+				blocks = append(blocks, wm.NPPeer{CIDR: fmt.Sprintf("200.0.0.0/%d", 8+2*i), Except: []string{fmt.Sprintf("200.0.0.0/%d", 9+2*i)}})
+			}
+		}
+		var rules []wm.NPRule
+		for i := 0; i < n; i += perRule {
+			j := i + perRule
+			if j > n {
+				j = n
+			}
+			p := pt
+			if (i/perRule)%2 == 1 {
+				p = nil
+			}
+			rules = append(rules, wm.NPRule{Peers: blocks[i:j], Ports: p})
+		}
+		w := &wm.World{NSs: NsConfigs[1], WLs: ThreeWL(nil, nil, nil)[:2]}
+		np := wm.NP{NS: "ns1", Name: "p", PodSel: *wm.ML("app", "a"), Types: []string{"Ingress", "Egress"}}
+		if dir != 1 {
+			np.Ingress = rules
+		}
+		if dir != 0 {
+			np.Egress = rules
+		}
+		w.NPs = []wm.NP{np}
+		return w
+	})
+
 	if !quick {
 		scopes = append(scopes, thorough()...)
 	}
